@@ -95,3 +95,9 @@ Print Assumptions C10_prefix_report_only_refuted.
 Theorem C10_prefix_return_only_refuted : dropped prefix_return_only.
 Proof. exact prefix_return_only_refuted. Qed.
 Print Assumptions C10_prefix_return_only_refuted.
+
+(* the order Report-before-Commit in the worker is essential: with the two calls swapped
+   (everything else as in the current code) a failing transaction can be dropped *)
+Theorem C10_commit_before_report_refuted : dropped commit_before_report.
+Proof. exact commit_before_report_refuted. Qed.
+Print Assumptions C10_commit_before_report_refuted.
